@@ -87,6 +87,7 @@ def is_u8_slice_ref(ty):
 
 
 GOOD_SITES = set()   # paths of the functions that hand out a CR-trimmed line (filled by TRIM-1, used by EPOS-3)
+UNDECIDED_SITES = set()   # line sites whose bounds are computed by a private function (no verdict from TRIM-1)
 
 
 def run(prog, R):
@@ -146,6 +147,7 @@ def run(prog, R):
         cands[b.path] = (b, ret_roots(b))
     good = GOOD_SITES
     good.clear()
+    UNDECIDED_SITES.clear()
     for t_ in T:
         good.add(t_.path)      # a trimming function hands out a trimmed line by definition
     changed = True
@@ -157,14 +159,50 @@ def run(prog, R):
             if all(r[0] == 'const' or (r[0] == 'call' and not r[-1] and (is_trim_call(r[1]) or (prog.local_callee_body(r[1].callee) is not None and prog.local_callee_body(r[1].callee).path in good))) for r in rs):
                 good.add(pth)
                 changed = True
+    # which of them hand their slice to the user: public functions / trait methods, closures inside them, and private
+    # functions whose result one of those returns (a private `raw()` used only to write the record back is not a line)
+    handed = set()
+    for pth, (b, rs) in cands.items():
+        if str(b.meta.get('vis')) == 'Public' or b.meta.get('impl_trait'):
+            handed.add(pth)
+    grew = True
+    while grew:
+        grew = False
+        for pth, (b, rs) in cands.items():
+            if pth in handed:
+                continue
+            parent = b.key.split('::{closure')[0]
+            pb = [q for q in prog.bodies.values() if q.key == parent and q.promoted_of is None] if '{closure' in b.key else []
+            if any(str(q.meta.get('vis')) == 'Public' or q.meta.get('impl_trait') or q.path in handed for q in pb):
+                handed.add(pth)
+                grew = True
+                continue
+            for hp in list(handed):
+                if hp in cands and any(r[0] == 'call' and prog.local_callee_body(r[1].callee) is b for r in cands[hp][1]):
+                    handed.add(pth)
+                    grew = True
+                    break
     line_sites = []
     for pth, (b, rs) in sorted(cands.items()):
-        slices = [(x, t) for x, t in b.calls() if t.callee and t.callee.path in SLICE_INDEX and 'Range' in ' '.join(t.callee.targs + [b.local_tys[t.args[1].place.local] if not t.args[1].is_const else ''])]
+        if pth not in handed and pth not in good:
+            continue
+        slices = [(x, t) for x, t in b.calls() if t.callee and t.callee.path in SLICE_INDEX and 'Range' in ' '.join(t.callee.targs + [b.local_tys[t.args[1].place.local] if not t.args[1].is_const else ''])
+                  and 'RangeFull' not in ' '.join(t.callee.targs)
+                  # a piece cut out of data, not of a literal (`&b" "[..]`)
+                  and not (roots_of(b, t.args[0]) and all(r[0] in ('const', 'promoted') for r in roots_of(b, t.args[0])))]
         if not slices:
             continue
         line_sites.append(b)
+        # the bounds of the piece come from a private function (`&buffer[self.head_range(buffer)]`): whether the carriage
+        # return is left out is decided there, in a form (a range, a pair of offsets) this rule does not follow
+        helper_bounds = pth not in good and any(
+            any(r[0] == 'call' and prog.local_callee_body(r[1].callee) is not None for r in roots_of(b, t.args[1]))
+            for _, t in slices if not t.args[1].is_const)
+        if helper_bounds:
+            UNDECIDED_SITES.add(pth)
         R.add('TRIM-1', b, 'line-site', pth in good, site(b, b.span['lo']),
-              'returned slice <- %s' % [(r[1].callee.target_path() if r[0] == 'call' else r[0]) for r in rs], undecided=trimmer is None)
+              'returned slice <- %s%s' % ([(r[1].callee.target_path() if r[0] == 'call' else r[0]) for r in rs],
+                                          ' (bounds computed by a private function: not judged)' if helper_bounds else ''), undecided=trimmer is None or helper_bounds)
     site_paths = set(b.path for b in line_sites)
     # accessors of the borrowed records hand out trimmed lines (directly or through helpers)
     for b in prog.bodies.values():
@@ -172,8 +210,10 @@ def run(prog, R):
         if not m or b.path in site_paths:
             continue
         rs = cands.get(b.path, (b, []))[1]
+        via_undecided = b.path not in good and bool(rs) and all(r[0] == 'const' or (r[0] == 'call' and prog.local_callee_body(r[1].callee) is not None and
+                                                                 (prog.local_callee_body(r[1].callee).path in good or prog.local_callee_body(r[1].callee).path in UNDECIDED_SITES)) for r in rs)
         R.add('TRIM-1', b, 'accessor-delegates', b.path in good, site(b, b.span['lo']),
-              'returned slice <- %s' % [(r[1].callee.target_path() if r[0] == 'call' else r[0]) for r in rs], undecided=trimmer is None)
+              'returned slice <- %s' % [(r[1].callee.target_path() if r[0] == 'call' else r[0]) for r in rs], undecided=trimmer is None or via_undecided)
     R.floor('TRIM-1', 11)
 
     # ---------------------------------------------------------------- TRIM-2
@@ -364,7 +404,7 @@ def epos_rules(prog, R, trimmer):
                 fields = dict(zip(s.rv.j['fields'], s.rv.ops))
                 pr = roots_of(b, fields['pos'], du)
                 if len(pr) != 1 or pr[0][0] != 'call' or prog.local_callee_body(pr[0][1].callee) is None:
-                    R.add('EPOS-1', b, '%s#%d' % (v, count[v]), False, site(b, s.line), 'error position is not produced by the position helper [UNDECIDED]')
+                    R.undecided('EPOS-1', b, '%s#%d' % (v, count[v]), site(b, s.line), 'the error position is not the result of a position helper called with the line offset (it is built in place / from a table): not judged')
                     continue
                 pt = pr[0][1]
                 epfn.add(prog.local_callee_body(pt.callee).path)
@@ -453,6 +493,7 @@ def epos_rules(prog, R, trimmer):
                 if v == 'UnequalLengths':
                     # EPOS-3 / LEN-1
                     lens = {}
+                    any_handed_in = False
                     for nm in ('seq', 'qual'):
                         r = roots_of(b, fields[nm], du)
                         okn = False
@@ -467,6 +508,17 @@ def epos_rules(prog, R, trimmer):
                                     lens[nm] = lt
                         # lengths handed in by the function that measured them (detection / reporting split): not judged here
                         handed_in = bool(r) and all(q[0] in ('arg',) and q[1] != 1 for q in r) or (bool(r) and not decides_markers(b) and all(q[0] in ('arg', 'call') for q in r) and not okn)
+                        # ... or measured by a private function that returns the lengths (`unequal_lengths() -> Option<(usize, usize)>`),
+                        # or taken from a piece whose bounds a private function computed
+                        if not okn and r and all(q[0] == 'call' and q[1].callee.name != 'len' and prog.local_callee_body(q[1].callee) is not None
+                                                 and not is_u8_slice_ref(prog.local_callee_body(q[1].callee).local_tys[0]) for q in r):
+                            handed_in = True
+                        if not okn and len(r) == 1 and r[0][0] == 'call' and r[0][1].callee.name == 'len':
+                            inner_ = roots_of(b, r[0][1].args[0], du, through_calls=identity_through)
+                            if inner_ and all(q[0] == 'call' and prog.local_callee_body(q[1].callee) is not None and
+                                              (prog.local_callee_body(q[1].callee).path in UNDECIDED_SITES or not is_u8_slice_ref(prog.local_callee_body(q[1].callee).local_tys[0])) for q in inner_):
+                                handed_in = True
+                        any_handed_in = any_handed_in or handed_in
                         R.add('EPOS-3', b, 'reported-%s' % nm, okn, site(b, s.line), 'field %s <- len(trimmed accessor `%s`): %s' % (nm, nm, okn), undecided=(not okn) and handed_in)
                     decided = False
                     if len(lens) == 2:
@@ -487,7 +539,7 @@ def epos_rules(prog, R, trimmer):
                                         # every path to the error passes the "lengths differ" edge
                                         if ne_edge != a and b.cfg.dominates(ne_edge, blk.idx):
                                             decided = True
-                    R.add('LEN-1', b, 'verdict-on-reported-lengths', decided, site(b, s.line), undecided=(not decided) and not decides_markers(b), detail=
+                    R.add('LEN-1', b, 'verdict-on-reported-lengths', decided, site(b, s.line), undecided=(not decided) and (not decides_markers(b) or any_handed_in), detail=
                           'the UnequalLengths error %s' % ('is reached only through "trimmed seq length != trimmed qual length" (the lengths it reports)' if decided else 'can be reached without the trimmed lengths having been compared (e.g. on raw line extents only: a CRLF record without final terminator is rejected with seq == qual)'))
     len2_rule(prog, R, trimmer)
     len3_rule(prog, R)
@@ -1070,11 +1122,20 @@ def ser_rules(prog, R):
                 r = roots_of(ser[0], t.args[2])
                 # `false as usize + 1 + 1`: count the +1 terms -> evaluated by const folding of bin chain
                 nlen = count_len(ser[0], t.args[2])
-        R.add('SER-1', ty, 'serialized-fields', sorted(names) == sorted(declared), adt['span']['file'],
-              'serialize_field names %s vs declared fields %s' % (names, declared))
+        # every declared field is written exactly once under its own name (the serialised names may be renamed: what matters is
+        # their number, that none is skipped, that they are distinct - and, below, that the deserialiser accepts the very same names)
+        converts = (not names) and any(t.callee and t.callee.path in ('std::convert::Into::into', 'std::convert::From::from') for _, t in ser[0].calls())
+        ser_ok = len(names) == len(declared) and '<skipped>' not in names and '?' not in names and len(set(names)) == len(names)
+        R.add('SER-1', ty, 'serialized-fields', ser_ok, adt['span']['file'],
+              'serialize_field names %s vs declared fields %s%s' % (names, declared, ' (the value is converted into another type that is serialised instead - #[serde(into)]: not judged)' if converts else ''),
+              undecided=(not ser_ok) and converts)
         de = [b for b in prog.bodies.values() if re.search(r"Deserialize<'de> for %s>::deserialize::__FieldVisitor as .*Visitor<'de>>::visit_str$" % re.escape(ty), b.path)]
         if len(de) != 1:
-            R.add('SER-1', ty, 'deserialize-impl', False, adt['span']['file'], 'expected one derived Deserialize field visitor, found %d' % len(de))
+            dimpl = [b for b in prog.bodies.values() if re.search(r"Deserialize<'de> for %s>::deserialize$" % re.escape(ty), b.path)]
+            from_conv = len(de) == 0 and len(dimpl) == 1 and any(t.callee and (t.callee.path in ('std::convert::Into::into', 'std::convert::From::from', 'std::convert::TryFrom::try_from')
+                                                                                  or t.callee.path.endswith('Deserialize::deserialize')) for _, t in dimpl[0].calls())
+            R.add('SER-1', ty, 'deserialize-impl', False, adt['span']['file'], 'expected one derived Deserialize field visitor, found %d%s' % (
+                len(de), ' (another type is deserialised and converted - #[serde(from)]: not judged)' if from_conv else ''), undecided=from_conv)
             continue
         dn = []
         for _, t in de[0].calls():
@@ -1082,8 +1143,8 @@ def ser_rules(prog, R):
                 for a in t.args:
                     if a.is_const and a.const_bytes() is not None:
                         dn.append(a.const_bytes().decode())
-        R.add('SER-1', ty, 'deserialized-fields', sorted(dn) == sorted(declared), adt['span']['file'],
-              'field names accepted by the deserialiser %s vs declared fields %s' % (dn, declared))
+        R.add('SER-1', ty, 'deserialized-fields', sorted(dn) == sorted(names) and len(dn) == len(declared), adt['span']['file'],
+              'field names accepted by the deserialiser %s vs names written by the serialiser %s (declared fields %s)' % (dn, names, declared))
         # every accepted name maps to a distinct __fieldN, and visit_map / visit_seq build the struct from all of them
         vs = [b for b in prog.bodies.values() if re.search(r"Deserialize<'de> for %s>::deserialize::__Visitor<'de> as .*Visitor<'de>>::visit_(seq|map)$" % re.escape(ty), b.path)]
         for b in vs:
@@ -1288,7 +1349,9 @@ def len2_rule(prog, R, trimmer):
     esc = sorted(r for r in okret if r in seen)
     R.add('LEN-2', v, 'acceptance-on-raw-extents-needs-terminated-last-line', not esc and bool(eq_edges), site(v, v.span['lo']),
           'the validator can accept a record on equal raw extents alone, without knowing that the last line is terminated: %s' % (
-              bool(esc) or not eq_edges) + ' (a CRLF record whose unterminated quality line is one longer than the sequence is accepted)' * bool(esc or not eq_edges))
+              bool(esc) or not eq_edges) + ' (a CRLF record whose unterminated quality line is one longer than the sequence is accepted)' * bool(esc or not eq_edges)
+          + ' - the validator does not measure the trimmed lines itself (a private function does): not judged' * (not eq_edges and not lts),
+          undecided=(not eq_edges and not lts))
     # the EOF completion site passes "unterminated"
     n = 0
     for b in prog.bodies.values():
